@@ -334,7 +334,7 @@ func (r *verifRunner) step(a map[string]any) (string, error) {
 		if tp := w.hub.topicGet(w.canon(t)); tp != nil && !tp.isInactive() {
 			if len(tp.sessions) == 0 {
 				tp.killTimer.Reset(time.Nanosecond)
-				time.Sleep(200 * time.Microsecond)
+				w.waitUnloaded(w.canon(t))
 			}
 		}
 		return "", w.quiesce()
@@ -373,7 +373,7 @@ func (r *verifRunner) step(a map[string]any) (string, error) {
 		}
 		if tp := w.hub.topicGet(w.canon(t)); tp != nil && !tp.isInactive() && len(tp.sessions) == 0 {
 			tp.killTimer.Reset(time.Nanosecond)
-			time.Sleep(200 * time.Microsecond)
+			w.waitUnloaded(w.canon(t))
 		}
 		if err := w.quiesce(); err != nil {
 			return "", err
@@ -436,6 +436,16 @@ func (r *verifRunner) step(a map[string]any) (string, error) {
 		return f(r, a)
 	}
 	return "", fmt.Errorf("unknown action %q", act)
+}
+
+// waitUnloaded waits (bounded) until the hub has dropped the topic whose idle timer was just made to expire: the topic actor may
+// answer the quiescence probes BEFORE it reads its timer (select picks among ready channels at random), and under machine load a
+// fixed pause booked the unload on the next step.
+func (w *verifWorld) waitUnloaded(name string) {
+	deadline := time.Now().Add(2 * time.Second)
+	for w.hub.topicGet(name) != nil && time.Now().Before(deadline) {
+		time.Sleep(100 * time.Microsecond)
+	}
 }
 
 // stepNoQuiesce sends a (nested) request and waits for its reply only.
